@@ -37,6 +37,7 @@
 #include <iostream>
 #include <map>
 #include <optional>
+#include <cstdio>
 #include <set>
 #include <sstream>
 #include <string>
@@ -325,8 +326,13 @@ static std::string showOutcome(const Outcome& r) {
 
 static Parser& theParser() { static Parser p; return p; }
 
+// the deck handed to the real code is kept on disk while it runs: if the real code dies on it (signal, abort) the
+// orchestration finds the killing input there (lib/vlib.py: _keep_current_input)
+static std::string CURRENT_INPUT;
+
 static Outcome runReal(const std::string& deckStr, int ncells) {
     Outcome r;
+    if (!CURRENT_INPUT.empty()) vh::spit(CURRENT_INPUT, deckStr);
     try {
         ParseContext pc;
         ErrorGuard eg;
@@ -387,6 +393,12 @@ struct RefState {
     std::set<std::string> regionTouched;        // arrays written by a region-keyed operation
     bool recBoxPending = false;                 // previous keyword ended with a record box != the current box
     int inBoxKw = -1;                           // keywords since the last BOX (-1: no BOX open)
+    // "same key reused after its source changed" (counters e.*): what every region-keyed record saw
+    struct KeySnap { std::vector<char> cells; size_t logPos = 0; int sec = 0; int nact = 0; };
+    std::map<std::pair<std::string, int>, KeySnap> keySnap;     // (region array, id) -> active cells selected last time
+    std::vector<std::pair<std::string, std::string>> intWrites; // (int array, writer) in program order
+    std::map<std::string, int> boxUse;                          // box bounds -> active cell count when last used
+    void noteIntWrite(const std::string& a, const std::string& how) { intWrites.push_back({ a, how }); }
     std::map<std::string, GArr<double>> d;
     std::map<std::string, GArr<int>> i;
     std::map<std::string, GArr<double>> gd;      // the code's global storage of `global` keywords
@@ -516,9 +528,40 @@ static bool refRegionEmpty(const RefState& s, const GArr<int>& reg, int rv) {
     return true;
 }
 // counters for one region-keyed record; returns "empty among the active cells"
-static bool countRegionRec(const RefState& s, const std::string& kw, const GArr<int>& reg, int rv) {
+static bool countRegionRec(RefState& s, int sec, const std::string& kw, const std::string& regName, const GArr<int>& reg, int rv) {
     const bool empty = refRegionEmpty(s, reg, rv);
     if (!RSTAT) return empty;
+    {
+        // the key (region array, id) used before?  did the set of active cells it selects change since, and who wrote
+        // integer arrays in between (a memo of region_index must be dropped by every one of them)
+        RefState::KeySnap now;
+        now.cells.assign(s.n(), 0);
+        for (int g = 0; g < s.n(); ++g) { now.cells[g] = s.act[g] && reg[g].v == rv; now.nact += s.act[g] ? 1 : 0; }
+        now.logPos = s.intWrites.size(); now.sec = sec;
+        const auto key = std::make_pair(regName, rv);
+        auto it = s.keySnap.find(key);
+        if (it != s.keySnap.end()) {
+            const auto& old = it->second;
+            const bool changed = old.cells != now.cells;
+            rcount(changed ? "e.key-reused.selection-changed" : "e.key-reused.selection-unchanged");
+            if (changed) {
+                std::set<std::string> writers; std::string lastOnReg;
+                for (size_t q = old.logPos; q < s.intWrites.size(); ++q) { writers.insert(s.intWrites[q].second); if (s.intWrites[q].first == regName) lastOnReg = s.intWrites[q].second; }
+                rcount("e.key-reused.selection-changed.region-array-last-written-by." + (lastOnReg.empty() ? std::string("nobody") : lastOnReg));
+                bool onlyCopy = !writers.empty();
+                for (const auto& w : writers) onlyCopy = onlyCopy && (w == "COPY" || w == "COPYREG");
+                if (onlyCopy) rcount("e.key-reused.selection-changed.only-COPY/COPYREG-wrote-int-arrays-in-between");
+                if (old.sec != sec) rcount("e.key-reused.selection-changed.later-section");
+                if (old.nact != now.nact) rcount("e.key-reused.selection-changed.active-cells-removed-in-between");
+                if (empty) rcount("e.key-reused.selection-changed.now-empty");
+            } else {
+                if (old.sec != sec) rcount("e.key-reused.selection-unchanged.later-section");
+            }
+            if (old.nact != now.nact) rcount("e.key-reused.active-cells-removed-in-between");
+        }
+        for (const auto& kv : s.keySnap) if (kv.first.second == rv && kv.first.first != regName) { rcount("e.same-id-other-region-set"); break; }
+        s.keySnap[key] = now;
+    }
     std::set<int> vals, avals;
     bool anyGlobal = false;
     for (int g = 0; g < s.n(); ++g) {
@@ -547,6 +590,21 @@ static void countRecBox(const std::string& kw, const RefState& s, const RefState
         else rcount(j == 0 ? "b.rec.all-defaulted-first" : "b.rec.all-defaulted-after-same-box");
     } else if (someDefaulted(b)) rcount("b.rec.partially-defaulted"), rcount("b.rec.partially-defaulted." + kw);
     else rcount("b.rec.all-six-given");
+}
+
+// counters for box reuse: the same box bounds used again, possibly after the set of active cells shrank
+static void countBoxUse(RefState& s, const RefState& t) {
+    if (!RSTAT) return;
+    std::string key;
+    for (int q = 0; q < 6; ++q) key += std::to_string(t.box[q]) + ",";
+    int nact = 0;
+    for (int g = 0; g < s.n(); ++g) nact += s.act[g] ? 1 : 0;
+    auto it = s.boxUse.find(key);
+    if (it != s.boxUse.end()) {
+        rcount("e.box-reused");
+        if (it->second != nact) rcount("e.box-reused.active-cells-removed-in-between");
+    }
+    s.boxUse[key] = nact;
 }
 
 // counters for one data keyword: re-entry of an array
@@ -598,6 +656,7 @@ static void refKeywordBody(RefState& s, int sec, const KwOp& k) {
         auto& a = refGetD(s, editName(sec, k.name));
         if ((int) k.data.size() != s.boxSize()) throw RefErr{};
         countEntry(s, sec, editName(sec, k.name), false, k.data);
+        countBoxUse(s, s);
         forBox(s, [&](int g, int pos) {
             const auto& dc = k.data[pos];
             if (!hasV(dc.st)) return;
@@ -647,6 +706,8 @@ static void refKeywordBody(RefState& s, int sec, const KwOp& k) {
         auto& a = refGetI(s, k.name);
         if ((int) k.data.size() != s.boxSize()) throw RefErr{};
         countEntry(s, sec, k.name, true, k.data);
+        countBoxUse(s, s);
+        s.noteIntWrite(k.name, "data");
         forBox(s, [&](int g, int pos) {
             const auto& dc = k.data[pos];
             if (!hasV(dc.st)) return;
@@ -660,6 +721,7 @@ static void refKeywordBody(RefState& s, int sec, const KwOp& k) {
             const auto& r = k.recs[j];
             countRecBox(k.name, s, t, r.box, j);
             refUpdateBox(t, r.box);
+            countBoxUse(s, t);
             bool bad = false;
             if (RSTAT && (k.name == "MINVALUE" || k.name == "MAXVALUE") && s.regionTouched.count(r.a)) rcount("d.minmax-after-region-operation");
             if (DBL.count(r.a)) {
@@ -681,6 +743,7 @@ static void refKeywordBody(RefState& s, int sec, const KwOp& k) {
             if (bad) throw RefErr{};
         }
         s.d = t.d; s.i = t.i; s.gd = t.gd;
+        for (const auto& r : k.recs) if (INTS.count(r.a)) s.noteIntWrite(r.a, k.name);
         s.recBoxPending = !sameBox(s, t);
         return;
     }
@@ -690,6 +753,7 @@ static void refKeywordBody(RefState& s, int sec, const KwOp& k) {
             const auto& r = k.recs[j];
             countRecBox("COPY", s, t, r.box, j);
             refUpdateBox(t, r.box);
+            countBoxUse(s, t);
             bool bad = false;
             if (DBL.count(r.b)) {
                 if (!t.d.count(r.b) || !refValid(t, t.d.at(r.b))) throw RefErr{};
@@ -713,6 +777,7 @@ static void refKeywordBody(RefState& s, int sec, const KwOp& k) {
             if (bad) throw RefErr{};
         }
         s.d = t.d; s.i = t.i; s.gd = t.gd;
+        for (const auto& r : k.recs) if (INTS.count(r.a) && INTS.count(r.b)) s.noteIntWrite(r.a, "COPY");
         s.recBoxPending = !sameBox(s, t);
         return;
     }
@@ -722,6 +787,7 @@ static void refKeywordBody(RefState& s, int sec, const KwOp& k) {
             const auto& r = k.recs[j];
             countRecBox("OPERATE", s, t, r.box, j);
             refUpdateBox(t, r.box);
+            countBoxUse(s, t);
             if (!DBL.count(r.a) || !DBL.count(r.b)) throw RefErr{};
             const auto& info = DBL.at(r.a);
             refGetD(t, r.a);
@@ -764,7 +830,7 @@ static void refKeywordBody(RefState& s, int sec, const KwOp& k) {
             const auto rn = refRegionName(r.rs);
             if (!rn) throw RefErr{};
             const auto reg = refRegion(s, *rn);
-            if (countRegionRec(s, k.name, reg, r.rv)) continue;
+            if (countRegionRec(s, sec, k.name, *rn, reg, r.rv)) continue;
             s.regionTouched.insert(r.a);
             const double x = (k.name == "MULTIREG") ? r.val : si(info, r.val);
             auto& a = refGetD(s, r.a);
@@ -784,7 +850,7 @@ static void refKeywordBody(RefState& s, int sec, const KwOp& k) {
             const auto rn = refRegionName(r.rs);
             if (!rn) throw RefErr{};
             const auto reg = refRegion(s, *rn);
-            countRegionRec(s, "COPYREG", reg, r.rv);
+            countRegionRec(s, sec, "COPYREG", *rn, reg, r.rv);
             s.regionTouched.insert(r.a);
             bool bad = false;
             if (DBL.count(r.b)) {
@@ -799,6 +865,7 @@ static void refKeywordBody(RefState& s, int sec, const KwOp& k) {
                 const auto src = s.i.at(r.b);
                 auto& a = refGetI(s, r.a);
                 for (int g = 0; g < s.n(); ++g) if (reg[g].v == r.rv) { if (src[g].st == 'v') a[g] = src[g]; else if (s.act[g]) bad = true; }
+                s.noteIntWrite(r.a, "COPYREG");
             }
             if (bad) throw RefErr{};
         }
@@ -815,7 +882,7 @@ static void refKeywordBody(RefState& s, int sec, const KwOp& k) {
             if (!DBL.count(r.b)) throw RefErr{};
             const auto src = refGetD(s, r.b);
             const auto reg = refRegion(s, r.rs);
-            const bool emptyReg = countRegionRec(s, "OPERATER", reg, r.rv);
+            const bool emptyReg = countRegionRec(s, sec, "OPERATER", r.rs, reg, r.rv);
             if (RSTAT && srcMissing) {
                 bool anyGlobal = false;
                 for (int g = 0; g < s.n(); ++g) anyGlobal = anyGlobal || reg[g].v == r.rv;
@@ -877,7 +944,7 @@ static void refResetActnum(RefState& s) {
         double pv = hasV(poro[g].st) ? poro[g].v : 0.0;
         if (s.d.count("NTG")) pv *= s.d.at("NTG")[g].v;
         if (s.d.count("MULTPV")) pv *= s.d.at("MULTPV")[g].v;
-        if (actnum[g].v == 0 || pv == 0) s.act[g] = 0;
+        if (actnum[g].v == 0 || pv == 0) { if (s.act[g]) rcount("e.reset-actnum.cell-deactivated-by-zero-pore-volume"); s.act[g] = 0; }
     }
 }
 
@@ -973,6 +1040,11 @@ struct Gen {
     std::map<std::string, long>& stats;
     Gen(vh::Rng& r, std::map<std::string, long>& st) : rng(r), stats(st) {}
 
+    // per case: region keys (region array, id) named by region-keyed operations so far and boxes used so far; later
+    // keywords (also of later sections) reuse them so that a memo keyed by them would be read back
+    std::vector<std::pair<std::string, int>> usedKeys;
+    std::vector<BoxItems> usedBoxes;
+
     double niceD(bool allowNeg = false) {
         double v = rng.range(0, 64) / 8.0;
         if (rng.coin(1, 10)) v = rng.range(0, 4000) / 4.0;
@@ -985,6 +1057,7 @@ struct Gen {
         BoxItems b;
         const int dims[3] = { c.nx, c.ny, c.nz };
         int mode = rng.range(0, 9);
+        if (force == -1 && !usedBoxes.empty() && rng.coin(1, 8)) { stats["gen.attempt.box-bounds-reused"]++; return rng.pick(usedBoxes); }
         if (force == 0) return b;
         if (force == 1) mode = rng.range(1, 4);
         if (force == 2) mode = 9;
@@ -1010,7 +1083,7 @@ struct Gen {
             case 2: b.v[2 * a] = dims[a]; b.v[2 * a + 1] = 1; if (dims[a] == 1) b.v[2 * a] = 2; break;
             default: b.v[2 * a] = -1; break;
             }
-        }
+        } else if (!allDefaulted(b) && usedBoxes.size() < 12) usedBoxes.push_back(b);
         return b;
     }
 
@@ -1328,7 +1401,10 @@ struct Gen {
         const std::set<int> av = activeVals();
         std::set<int> iv;       // values carried by inactive cells only
         if (t.i.count(reg)) for (int q = 0; q < t.n(); ++q) if (!t.act[q] && hasV(t.i.at(reg)[q].st) && !av.count(t.i.at(reg)[q].v)) iv.insert(t.i.at(reg)[q].v);
+        std::vector<int> usedHere;
+        for (const auto& uk : usedKeys) if (uk.first == reg) usedHere.push_back(uk.second);
         auto pickRv = [&]() {
+            if (!usedHere.empty() && rng.coin(1, 4)) return rng.pick(usedHere);
             if (!iv.empty() && rng.coin(1, 4)) return rng.pick(std::vector<int>(iv.begin(), iv.end()));
             if (!av.empty() && rng.coin(5, 6)) return rng.pick(std::vector<int>(av.begin(), av.end()));
             return rng.range(0, 5);
@@ -1390,6 +1466,7 @@ struct Gen {
             }
         }
         if (!pushKw(g, t, sec, k)) return g;
+        for (const auto& r : k.recs) noteKey(k.type == KT::OPRR ? r.rs : reg, r.rv);
         // (3) follow-ups: a box operation that must already find the array (the OPERATER source when it was missing:
         // it exists only if some record's region had an active cell), MINVALUE/MAXVALUE on the target
         if (k.type == KT::OPRR && rng.coin()) {
@@ -1408,6 +1485,213 @@ struct Gen {
         return g;
     }
 
+    void noteKey(const std::string& reg, int rv) {
+        for (const auto& uk : usedKeys) if (uk.first == reg && uk.second == rv) return;
+        if (usedKeys.size() < 16) usedKeys.push_back({ reg, rv });
+    }
+
+    // one region-keyed keyword (one record) naming (region array R, id v)
+    std::optional<KwOp> regionOpOn(int sec, const RefState& t, const std::string& R, int v, const std::string& preferTarget, std::string& target) {
+        std::vector<std::string> letters;
+        if (R == "FLUXNUM") letters = { "*", "F" };
+        else if (R == "MULTNUM") letters = { "M" };
+        else if (R == "OPERNUM") letters = { "O" };
+        std::vector<std::string> fullDef, fullV, withInit;
+        for (const auto& kv : t.d) {
+            if (kv.first.rfind(MULT_PREFIX, 0) == 0) continue;
+            bool def = true, allV = true;
+            for (int q = 0; q < t.n(); ++q) if (t.act[q]) { def = def && hasV(kv.second[q].st); allV = allV && kv.second[q].st == 'v'; }
+            if (def) fullDef.push_back(kv.first);
+            if (allV) fullV.push_back(kv.first);
+        }
+        for (const auto& n : DBL_ORDER) if (DBL.at(n).init) withInit.push_back(n);
+        int kind = rng.pick(std::vector<int>{ 0, 0, 0, 0, 0, 1, 1, 1, 2, 2 });
+        if (letters.empty()) kind = 1;
+        if (kind == 2 && fullV.empty()) kind = 0;
+        auto pickTarget = [&](bool mustBeDefined) {
+            std::string a = pickD(sec, rng.coin(1, 3));
+            if (!preferTarget.empty() && rng.coin()) a = preferTarget;
+            if (isGlob(a) && rng.coin(3, 4)) a = pickD(sec, rng.coin(1, 3));
+            if (mustBeDefined && !std::count(fullDef.begin(), fullDef.end(), a)) { if (fullDef.empty()) return std::string(); a = rng.pick(fullDef); }
+            return a;
+        };
+        KwOp k; Rec r; r.rv = v;
+        if (kind == 0) {
+            k.type = KT::SREG;
+            k.name = rng.pick(std::vector<std::string>{ "EQUALREG", "EQUALREG", "ADDREG", "MULTIREG" });
+            r.a = pickTarget(k.name != "EQUALREG");
+            if (r.a.empty()) { k.name = "EQUALREG"; r.a = pickTarget(false); }
+            r.val = niceD(k.name != "MULTIREG");
+            if (k.name == "ADDREG" && r.val == 0) r.val = 1.5;
+            if (k.name == "MULTIREG" && (r.val == 1 || r.val == 0)) r.val = 2;
+            r.rs = rng.pick(letters);
+        } else if (kind == 1) {
+            k.type = KT::OPRR;
+            r.a = pickTarget(false);
+            r.b = !fullDef.empty() ? rng.pick(fullDef) : rng.pick(withInit);
+            r.fn = rng.pick(std::vector<std::string>{ "ADDX", "MULTA", "MULTX", "COPY", "MINLIM", "MAXLIM", "ABS" });
+            r.val = niceD(true); if (r.val == 0 || r.val == 1) r.val = 2.5;
+            r.val2 = rng.range(1, 6) / 2.0;
+            r.rs = R;
+        } else {
+            k.type = KT::CREG;
+            r.b = rng.pick(fullV);
+            r.a = pickTarget(false);
+            if (isGlob(r.a) && !isGlob(r.b)) r.a = "NTG";
+            if (r.a == r.b) r.a = (r.b == "SWAT") ? "SGAS" : "SWAT";
+            r.rs = rng.pick(letters);
+        }
+        target = r.a;
+        k.recs.push_back(r);
+        return k;
+    }
+
+    // (e) "same key reused after its source changed": a region-keyed operation naming (region array R, id v); then R
+    // itself is rewritten so that OTHER active cells carry v — by COPY or COPYREG with R as the TARGET, by EQUALS / ADD /
+    // MULTIPLY / MINVALUE / MAXVALUE in a box, by a second direct assignment; then another region-keyed operation
+    // naming the same (R, v).  Whatever R and the COPY source need is prepared BEFORE the first operation, so that
+    // nothing else writes an integer array between the first use of the key and the rewrite: a memo of
+    // region_index(R, v) that one writer of R forgets to drop is read back stale.  The first operation may also be one
+    // of an earlier group or section (usedKeys).
+    std::vector<KwOp> staleKeyGroup(const Case& c, int sec, const RefState& s) {
+        std::vector<KwOp> g;
+        RefState t = s;
+        stats["gen.attempt.group.stale-key"]++;
+        // the key: an earlier one (possibly of an earlier section) or a new one
+        std::string R; int v = 0; bool old = false;
+        {
+            std::vector<std::pair<std::string, int>> cand;
+            for (const auto& uk : usedKeys) if (t.i.count(uk.first) && refValid(t, t.i.at(uk.first)) && !refRegionEmpty(t, t.i.at(uk.first), uk.second)) cand.push_back(uk);
+            if (!cand.empty() && rng.coin(2, 5)) { const auto k0 = rng.pick(cand); R = k0.first; v = k0.second; old = true; }
+        }
+        if (!old) R = rng.coin(5, 6) ? rng.pick(std::vector<std::string>{ "FLUXNUM", "FLUXNUM", "MULTNUM", "MULTNUM", "OPERNUM" })
+                                     : rng.pick(std::vector<std::string>{ "SATNUM", "FIPNUM", "PVTNUM", "EQLNUM" });
+        // how R will be rewritten
+        enum { W_COPY, W_COPYREG, W_EQUALS, W_ADD, W_MULTIPLY, W_DATA, W_MINMAX };
+        std::vector<int> hows = { W_COPY, W_COPY, W_COPY, W_COPY, W_COPYREG, W_COPYREG, W_COPYREG, W_EQUALS, W_EQUALS, W_ADD, W_MULTIPLY };
+        if (std::count(DATA_I[sec].begin(), DATA_I[sec].end(), R)) { hows.push_back(W_DATA); hows.push_back(W_DATA); }
+        if (sec <= 2) hows.push_back(W_MINMAX);
+        const int how = rng.pick(hows);
+        auto activeVals = [&](const RefState& u, const std::string& a) { std::set<int> x; if (u.i.count(a)) for (int q = 0; q < u.n(); ++q) if (u.act[q] && hasV(u.i.at(a)[q].st)) x.insert(u.i.at(a)[q].v); return x; };
+        auto allV = [&](const RefState& u, const std::string& a) { if (!u.i.count(a)) return false; for (int q = 0; q < u.n(); ++q) if (u.act[q] && u.i.at(a)[q].st != 'v') return false; return true; };
+        auto assignInt = [&](const std::string& a) {       // EQUALS a 1 <full> ; a 2..4 <box> ... : every cell a deck value
+            KwOp k; k.type = KT::SCAL; k.name = "EQUALS";
+            { Rec r; r.a = a; r.val = rng.range(1, 2); r.box = fullBox(c); k.recs.push_back(r); }
+            const int extra = rng.range(1, 3);
+            for (int j = 0; j < extra; ++j) { Rec r; r.a = a; r.val = rng.range(1, 4); r.box = randBox(c, false, 2); k.recs.push_back(r); }
+            return k;
+        };
+        // (1) preparation: R valid with at least two values among the active cells; the COPY/COPYREG source S a
+        // fully assigned integer array other than R
+        std::string S;
+        {
+            std::vector<std::string> ex;
+            for (const auto& kv : t.i) if (kv.first != "ACTNUM" && kv.first != R && allV(t, kv.first) && activeVals(t, kv.first).size() >= 2) ex.push_back(kv.first);
+            if (!ex.empty() && rng.coin(2, 3)) S = rng.pick(ex);
+            else if (how == W_COPY || how == W_COPYREG) {
+                do { S = pickI(sec, true); } while (S == R);
+                if (!pushKw(g, t, sec, assignInt(S))) return g;
+            }
+        }
+        if (!old) {
+            const bool have = t.i.count(R) && refValid(t, t.i.at(R)) && activeVals(t, R).size() >= 2;
+            if (!have || rng.coin(1, 4)) { if (!pushKw(g, t, sec, assignInt(R))) return g; }
+            const auto av = activeVals(t, R);
+            if (av.empty()) return g;
+            v = rng.pick(std::vector<int>(av.begin(), av.end()));
+        }
+        // (2) first use of the key (unless an earlier keyword already used it)
+        std::string target;
+        if (!old || rng.coin(1, 3)) {
+            const auto k = regionOpOn(sec, t, R, v, "", target);
+            if (!k || !pushKw(g, t, sec, *k)) return g;
+            noteKey(R, v);
+        } else stats["gen.attempt.group.stale-key.first-use-in-earlier-group"]++;
+        const int rounds = rng.coin(1, 3) ? 2 : 1;
+        int curHow = how;
+        for (int round = 0; round < rounds; ++round) {
+            // (3) rewrite R so that the active cells with R == v change
+            auto selection = [&](const RefState& u) { std::vector<char> x(u.n(), 0); for (int q = 0; q < u.n(); ++q) x[q] = u.act[q] && hasV(u.i.at(R)[q].st) && u.i.at(R)[q].v == v; return x; };
+            const auto before = selection(t);
+            bool done = false;
+            const bool plainReuse = old && round == 0 && rng.coin(1, 5);      // no rewrite at all: the key simply comes back
+            for (int attempt = 0; attempt < 10 && !done && !plainReuse; ++attempt) {
+                std::vector<KwOp> w;
+                KwOp k; Rec r;
+                switch (curHow) {
+                case W_COPY: k.type = KT::COPY; r.b = S; r.a = R; r.box = randBox(c, false, attempt < 5 ? -1 : 0); k.recs.push_back(r); w.push_back(k); break;
+                case W_COPYREG: {
+                    k.type = KT::CREG; r.b = S; r.a = R;
+                    // region set of the COPYREG itself: R (the key's own region set, another id or the same) or another valid one
+                    std::vector<std::pair<std::string, std::string>> sets;      // letter, array
+                    for (const char* l : { "F", "M", "O" }) { const std::string a = *refRegionName(l); if ((a == "MULTNUM" || t.i.count(a)) && (!t.i.count(a) || refValid(t, t.i.at(a)))) sets.push_back({ l, a }); }
+                    if (sets.empty()) { curHow = W_EQUALS; continue; }
+                    const auto set = rng.pick(sets);
+                    r.rs = set.first;
+                    const auto vals = activeVals(t, set.second);
+                    r.rv = vals.empty() ? 1 : rng.pick(std::vector<int>(vals.begin(), vals.end()));
+                    k.recs.push_back(r); w.push_back(k); break;
+                }
+                case W_EQUALS: k.type = KT::SCAL; k.name = "EQUALS"; r.a = R; r.val = rng.coin() ? v : rng.range(1, 4); r.box = randBox(c, false, 2); k.recs.push_back(r); w.push_back(k); break;
+                case W_ADD: k.type = KT::SCAL; k.name = "ADD"; r.a = R; r.val = rng.coin() ? 1 : -1; r.box = randBox(c, false); k.recs.push_back(r); w.push_back(k); break;
+                case W_MULTIPLY: k.type = KT::SCAL; k.name = "MULTIPLY"; r.a = R; r.val = 2; r.box = randBox(c, false); k.recs.push_back(r); w.push_back(k); break;
+                case W_MINMAX: k.type = KT::SCAL; k.name = rng.coin() ? "MINVALUE" : "MAXVALUE"; r.a = R; r.val = rng.range(1, 4); r.box = randBox(c, false); k.recs.push_back(r); w.push_back(k); break;
+                default: {
+                    // second direct assignment, in a box or over the whole grid
+                    RefState u = t;
+                    try {
+                        if (rng.coin(2, 3)) { KwOp b; b.type = KT::BOX; b.box = randBox(c, false, 2); w.push_back(b); refKeyword(u, sec, b); }
+                        else if (!isGlobalBox(u)) { KwOp e; e.type = KT::ENDBOX; w.push_back(e); refKeyword(u, sec, e); }
+                    } catch (const RefErr&) { continue; }
+                    k.type = KT::DATI; k.name = R;
+                    for (int q = 0; q < u.boxSize(); ++q) { DCell d; d.i = rng.range(1, 4); k.data.push_back(d); }
+                    w.push_back(k);
+                    if (w.front().type == KT::BOX && rng.coin(2, 3)) { KwOp e; e.type = KT::ENDBOX; w.push_back(e); }
+                    break;
+                }
+                }
+                RefState u = t;
+                bool ok = true;
+                for (const auto& x : w) { try { refKeyword(u, sec, x); } catch (const RefErr&) { ok = false; break; } }
+                if (!ok || !u.i.count(R) || !refValid(u, u.i.at(R))) continue;
+                if (selection(u) == before) continue;
+                for (const auto& x : w) g.push_back(x);
+                t = u; done = true;
+            }
+            if (!done && !plainReuse) { stats["gen.attempt.group.stale-key.no-rewrite-found"]++; return g; }
+            if (done) stats[std::string("gen.attempt.group.stale-key.rewrite.") + (curHow == W_COPY ? "COPY" : curHow == W_COPYREG ? "COPYREG" : curHow == W_EQUALS ? "EQUALS" : curHow == W_ADD ? "ADD" : curHow == W_MULTIPLY ? "MULTIPLY" : curHow == W_DATA ? "data" : "MINMAX")]++;
+            // (4) the same key again (once or twice: the second record reads what the first one may have stored)
+            const int again = rng.coin(1, 3) ? 2 : 1;
+            for (int q = 0; q < again; ++q) {
+                std::string tg;
+                const auto k = regionOpOn(sec, t, R, v, target, tg);
+                if (!k || !pushKw(g, t, sec, *k)) return g;
+                target = tg;
+            }
+            noteKey(R, v);
+            // a second round rewrites R another way
+            curHow = rng.pick(hows);
+            if ((curHow == W_COPY || curHow == W_COPYREG) && S.empty()) curHow = W_EQUALS;
+        }
+        return g;
+    }
+
+    // (f) GRID section: porosity zero in some active cells, so that the ACTNUM update after GRID/EDIT removes active
+    // cells (every array is re-compressed; whatever was derived from the old numbering must not survive)
+    std::vector<KwOp> poroZeroGroup(const Case& c, const RefState& s) {
+        std::vector<KwOp> g;
+        RefState t = s;
+        stats["gen.attempt.group.poro-zero"]++;
+        KwOp k; k.type = KT::SCAL; k.name = "EQUALS";
+        bool def = s.d.count("PORO") > 0;
+        if (def) for (int q = 0; q < s.n(); ++q) if (s.act[q] && !hasV(s.d.at("PORO")[q].st)) def = false;
+        if (!def) { Rec r; r.a = "PORO"; r.val = rng.range(1, 3) / 8.0; r.box = fullBox(c); k.recs.push_back(r); }
+        const int nz = rng.range(1, 2);
+        for (int j = 0; j < nz; ++j) { Rec r; r.a = "PORO"; r.val = 0; r.box = randBox(c, false, 2); k.recs.push_back(r); }
+        pushKw(g, t, 0, k);
+        return g;
+    }
+
     std::vector<KwOp> randGroup(const Case& c, int sec, const RefState& s) {
         const int w = rng.range(0, 99);
         std::vector<KwOp> g;
@@ -1415,6 +1699,8 @@ struct Gen {
         else if (w < 19) g = boxSpanGroup(c, sec, s);
         else if (w < 27) g = reentryGroup(c, sec, s);
         else if (w < 42) g = regionGroup(c, sec, s);
+        else if (w < 52) g = staleKeyGroup(c, sec, s);
+        else if (sec == 0 && w < 54) g = poroZeroGroup(c, s);
         if (g.empty()) g.push_back(randKw(c, sec, s));
         return g;
     }
@@ -1567,6 +1853,7 @@ struct Gen {
 
     Case randCase(bool topLayerModelled) {
         Case c;
+        usedKeys.clear(); usedBoxes.clear();
         c.nx = rng.range(1, 6); c.ny = rng.range(1, 6); c.nz = rng.range(1, 6);
         if (rng.coin(1, 5)) { c.nx = rng.range(1, 3); c.ny = rng.range(1, 3); c.nz = rng.range(1, 3); }
         const int n = c.nx * c.ny * c.nz;
@@ -1777,6 +2064,20 @@ static void runWitnesses(vh::PropLog& log, std::map<std::string, long>& stats) {
         else log.ok();
         stats["witness.multivalue-inactive"]++;
     }
+    // (e) the same (region set, id) named again after the region array itself was rewritten by COPY / COPYREG
+    //     (seeded change C12-4: a memo of region_index that COPY into an integer array does not drop)
+    {
+        const std::string head = "PORO\n 3*0.3 /\nFLUXNUM\n 1 2 2 /\nMULTNUM\n 2 1 1 /\nEQUALREG\n NTG 0.5 2 M /\n/\n";
+        const auto a = realGetDouble(smallDeck("3 1 1", 3, head + "COPY\n FLUXNUM MULTNUM /\n/\nEQUALREG\n NTG 0.25 2 M /\n/\n", "WATER\n"), "NTG");
+        if (!a) log.fail("witness.region-key-after-copy", "EQUALREG, COPY FLUXNUM MULTNUM, EQUALREG is rejected");
+        else if (!sameBits(*a, { 0.5, 0.25, 0.25 })) log.fail("witness.region-key-after-copy", "NTG after EQUALREG 0.5 (MULTNUM 2), COPY FLUXNUM MULTNUM, EQUALREG 0.25 (MULTNUM 2) is not 0.5 0.25 0.25");
+        else log.ok();
+        const auto b = realGetDouble(smallDeck("3 1 1", 3, head + "COPYREG\n FLUXNUM MULTNUM 1 F /\n/\nEQUALREG\n NTG 0.25 2 M /\n/\n", "WATER\n"), "NTG");
+        if (!b) log.fail("witness.region-key-after-copyreg", "EQUALREG, COPYREG FLUXNUM MULTNUM 1 F, EQUALREG is rejected");
+        else if (!sameBits(*b, { 0.5, 1.0, 1.0 })) log.fail("witness.region-key-after-copyreg", "NTG after EQUALREG 0.5 (MULTNUM 2), COPYREG FLUXNUM MULTNUM 1 F (no cell left with MULTNUM 2), EQUALREG 0.25 (MULTNUM 2) is not 0.5 1 1");
+        else log.ok();
+        stats["witness.region-key-after-copy"]++;
+    }
     // (d) ADD on an array whose deck unit has an offset: the shift is a temperature difference
     //     (50 C + 10 C = 60 C = 333.15 K; the full conversion of the shift would add 273.15 twice)
     {
@@ -1808,6 +2109,7 @@ int main(int argc, char** argv) {
     const uint64_t seed = std::stoull(argv[2]);
     const std::string tier = argv[3], outdir = argv[4];
     vh::Rng rng(seed * 7919 + (mode == "corr" ? 1 : 2));
+    CURRENT_INPUT = outdir + "/current_input.DATA";
 
     if (mode == "corr") {
         vh::Sink sink(outdir);
@@ -1910,6 +2212,7 @@ int main(int argc, char** argv) {
             sink.emit(o.str(), ans);
         }
         sink.writeStats(outdir + "/stats.json");
+        std::remove(CURRENT_INPUT.c_str());
         return 0;
     }
 
@@ -1990,6 +2293,7 @@ int main(int argc, char** argv) {
         st << "{\n  \"checked\": " << log.checked << ",\n  \"failed\": " << log.failed;
         for (auto& kv : stats) st << ",\n  \"" << kv.first << "\": " << kv.second;
         st << "\n}\n";
+        std::remove(CURRENT_INPUT.c_str());
         return 0;
     }
     std::cerr << "unknown mode\n";
